@@ -308,3 +308,31 @@ Definition v_roundtrip_e (eps : Q) (cov : list (list Q)) (out : result (list (li
   | Err e, Err e' => verdict (err_eqb e e') true
   | Err _, Ok _ => 1%Z
   end.
+
+(* ================================================================ get_stats with calcerr= *)
+From EsVerif.C18 Require Import ModelKw.
+
+Definition v_get_stats_kw (arr : nd) (w : option nd) (nsig : option Q) (niter : option Z) (calcerr : option bool)
+           (out : result (nd * nd * nd * nd * nd * list Z)) : Z :=
+  let clip := gs_clip nsig niter in
+  match out with
+  | Err e' => match get_stats_kw arr w nsig niter calcerr with Ok _ => 3%Z | Err e => verdict (err_eqb e e') true end
+  | Ok (mn, mx, mean, std, err, idx) =>
+      match get_stats_kw arr w nsig niter calcerr with
+      | Err _ => 1%Z
+      | Ok g =>
+          let shapes := nd_shape_eqb (g_min g) mn && nd_shape_eqb (g_max g) mx && nd_shape_eqb (g_mean g) mean
+                        && nd_shape_eqb (g_var g) std && nd_shape_eqb (g_err2 g) err in
+          let d := data_ncols (atleast_1d arr) in
+          let wl := fun j => match w with Some wn => Some (wcol_of (atleast_1d wn) j) | None => None end in
+          if match clip with
+             | Some (ns, ni) => existsb (fun j => sc_borderline (data_col (atleast_1d arr) j) (wl j) ni ns) (seq 0 d)
+             | None => false
+             end
+          then skip
+          else let c := shapes && forallb (fun j => gs_col_check_kw (kw_calcerr calcerr) (data_col (atleast_1d arr) j) (wl j) clip
+                                                     (nd_get mn j) (nd_get mx j) (nd_get mean j) (nd_get std j)
+                                                     (nd_get err j) idx) (seq 0 d) in
+               verdict c c
+      end
+  end.
